@@ -11,3 +11,9 @@ def roundtrip_bytes(b, nbits, bitorder):
 def roundtrip_samples(v, nbits, bitorder):
     p = pack(v, nbits, bitorder=bitorder)
     return unpack(p, nbits, bitorder=bitorder)
+
+
+def lemma_csum_mono(a, b):
+    """csum(a) <= csum(b) for 0 <= a <= b <= nf (induction on b; data sections have non-negative length)."""
+    if b > a:
+        lemma_csum_mono(a, b - 1)
